@@ -93,8 +93,15 @@ namespace cnl {
     public:
         [[nodiscard]] constexpr auto operator()(Input const& from) const
         {
-            // TODO: unsigned specialization
-            return static_cast<result>(from + ((from >= 0) ? half() : -half()));
+            // truncate toward zero, then round on the exact remainder (adding half() to `from` is
+            // inexact in floating point and overflows near the limits)
+            auto const truncated{static_cast<result>(from)};
+            auto const remainder{from - static_cast<Input>(truncated)};
+            return (remainder >= half())
+                         ? _impl::from_rep<result>(static_cast<ResultRep>(_impl::to_rep(truncated) + 1))
+                 : (remainder <= -half())
+                         ? _impl::from_rep<result>(static_cast<ResultRep>(_impl::to_rep(truncated) - 1))
+                         : truncated;
         }
     };
 
